@@ -113,7 +113,8 @@ CLAIMS = {
  'C07': dict(cat='other', ref='DESIGN.md 2/C07',
    text="Deductive: recorded coarse channel c is centred at fch1+(start_chan+c)*chan_bw from the header record() writes (C04), "
         "get_raw_params(start_chan) reproduces fch1/bandwidth/orientation/counts, the quick-look reducer skips exactly the first header "
-        "(DIRECTIO 0/1/absent), decodes x/y and applies the requested FFT length and integration factor, output shape of get_pfb_waterfall. "
+        "(DIRECTIO 0/1/absent), decodes x/y and applies the requested FFT length and integration factor, output shape of get_pfb_waterfall; a stream's constant "
+        "signal is level*cos(+-2pi((f_start-fch1)t + drift t^2/2) +- phase) at every sample for both orientations (chirp law). "
         "NOT decidable here: that a tone peaks within one fine bin of f (a DFT theorem) and the per-column value of the fine channelisation "
         "(undecided within budget) - both carried by a bounded native run of the real pipeline.",
    note="trusted: pyvc engine; header formulas proved in C04; tone localisation and fine-channel values bounded only (level 'other' for that reason)",
@@ -134,8 +135,8 @@ CLAIMS = {
         "not); collect_data_block with input data: the sub-block invariant of C02 extended with the input - every output sample is the "
         "requantisation of (input sample at the same (c,t,p) + synthetic sample requantised with zero mean and gain channelized_stds x "
         "digitiser target deviation), the gain passed is the same in every sub-block and the filterbank's channelized_stds are never "
-        "modified (frame condition inside the loop invariant), target means restored; requantize=False is rejected. from_data framing: "
-        "proved in the C04 check. Bounded native run: decode round trip, framing, flat added power per sub-block.",
+        "modified (frame condition inside the loop invariant), target means restored; requantize=False is rejected. from_data: header "
+        "size == the input's written header size for every card count (padded iff DIRECTIO != 0), same block size / bit depth / channel and block counts. Bounded native run: decode round trip, framing, flat added power per sub-block.",
    note="trusted: pyvc engine; input files follow the writer layout of C04; stage contracts modular; one antenna in the injection contract, taps enumerated; requantiser target statistics bounded only",
    technique="contract-based deductive verification (loop invariant incl. frame condition, modular stage contracts, symbolic file layout); bounded native replay"),
  'C11': dict(cat='other', ref='DESIGN.md 2/C11',
@@ -147,6 +148,18 @@ CLAIMS = {
         "background. NOT decidable by a contract: that numpy's samplers have the stated moments - an axiom here, probed by a bounded 6-sigma run.",
    note="level 'other': the headline distributional clause is probabilistic and about a third-party sampler; everything else is discharged",
    technique="contract-based deductive verification for formulas/bookkeeping (ghost generator stream); bounded statistical run for the distributions"),
+ 'C12': dict(cat='other', ref='DESIGN.md 2/C12',
+   text="Non-interference by two-run relational obligations on the real code: the same constructor and calls executed twice from equal "
+        "seeds give equal data / voltages at a symbolic position (frames: chi2, Gaussian, table noise, custom signals; Antenna and "
+        "MultiAntennaArray streams), no wall-clock value and no unseeded generator stream occurs in any result (the clock reaches only "
+        "t_start, and only when no start time is given), every child generator is seeded from its parent in program order. History: "
+        "record() called twice on one backend from arbitrary stale pipeline state - caches reset and start-of-observation set before the "
+        "first block, the second recording's default header is a fresh dictionary and block numbering restarts (file/block invariants of "
+        "C04 re-established). Copies: copy() equal field by field, no mutable node shared, also for frames carrying a .fil/.h5 Waterfall "
+        "(open handle stays with the original); pickled state drops only the Waterfall. NOT decidable by a contract: that different seeds "
+        "give different noise, and determinism of third-party estimators (sigma_clip): bounded native runs.",
+   note="level 'other': determinism across executions is a 2-safety property - decided here for the modelled state (arguments, fields, ghost generator streams, wall clock); third-party calls are assumed functions of their inputs",
+   technique="contract-based deductive verification (relational two-run obligations, taint of wall-clock/unseeded streams, loop invariants of C04, heap-isomorphism for copies); bounded native two-run replay"),
 }
 NA_REASON = "not yet built in this session (see DESIGN.md build order)"
 
